@@ -17,6 +17,7 @@ import (
 	"strconv"
 	"strings"
 	"sync"
+	"sync/atomic"
 	"time"
 
 	"github.com/go-kit/log"
@@ -53,6 +54,10 @@ type loopRec struct {
 	id   string
 	gen  *tokGen
 	seen int // CAS calls recorded (guarded by w.mu)
+	// CAS calls of this lifecycler in flight. BasicLifecycler.stopping heartbeats while the stopping delegate changes the
+	// state in a goroutine of its own; each of the two assigns the remembered entry AFTER its CAS returned, in an order the
+	// recorder cannot see (the remembered entry may be the older of the two until the next update). Such a case is re-run.
+	inflight int32
 }
 
 func (r *loopRec) List(ctx context.Context, p string) ([]string, error) {
@@ -71,8 +76,13 @@ func (r *loopRec) WatchPrefix(ctx context.Context, p string, f func(string, inte
 
 func (r *loopRec) CAS(ctx context.Context, key string, f func(in interface{}) (out interface{}, retry bool, err error)) error {
 	w := r.w
+	overlap := atomic.AddInt32(&r.inflight, 1) > 1
+	defer atomic.AddInt32(&r.inflight, -1)
 	w.mu.Lock() // one CAS at a time: commit order = trace order, no conflicts
 	defer w.mu.Unlock()
+	if overlap {
+		w.bad = true
+	}
 	calls := 0
 	var item string
 	var newTracked string
